@@ -649,7 +649,7 @@ JSON_INPUT_MUTATION = True
 # repair proposed in fixes/C06-mongo-update-matched-count.diff).  Until that repair (or a known entry
 # {"driver": "mongo", "op": "update", "observed": "count"}) is in, updates generated for the Mongo profile always set a
 # fresh value; set to True afterwards.
-MONGO_NOOP_UPDATES = False
+MONGO_NOOP_UPDATES = True
 
 
 def vandalise(v):
